@@ -31,7 +31,7 @@ ASSUMPTIONS = ["where OpenFlow 1.0 defines no error (port stats / queue "
                "may appear between replies",
                "flow_mod with an unknown action type is not generated (the "
                "statement lists ports, tables, queues, buffers, commands)"]
-REQUIRED = ["requests_after_an_entry_with_a_vendor_action", "reactive_delivery_compared", "mid_session_hellos", "bounded_table_cases", "barrier_state_probes_with_state_to_see", "requests", "replies_checked", "errors_checked", "no_reply_checked",
+REQUIRED = ["requests_after_an_entry_with_a_vendor_action", "requests_sent_some_time_after_the_one_before", "reactive_delivery_compared", "mid_session_hellos", "bounded_table_cases", "barrier_state_probes_with_state_to_see", "requests", "replies_checked", "errors_checked", "no_reply_checked",
             "stats_requests", "batch_compared", "invalid_requests",
             "barrier_probes"]
 TIMEOUT = {"quick": 900, "thorough": 7200}
@@ -172,7 +172,7 @@ def expect (model, req):
       return ("error_or_none",)
     if d["flags"] & OT.FF_EMERG:
       return ("error", [(3, 0), (3, 2), (3, 3), (3, 5)])
-    rem, errs = model.table.flow_mod(d, 0)
+    rem, errs = model.table.flow_mod(d, _clk[0].now if _clk else 0)
     if errs: return ("error", errs)
     return ("none",)
   if n == "packet_out":
@@ -220,6 +220,19 @@ def expect (model, req):
                          for e in hit), key=repr)
           if got != want:
             return "flow stats entries: got %d, reference %d" % (len(got), len(want))
+          # how long each entry has been installed (seconds and nanoseconds
+          # beyond them), by the clock the requests were sent under
+          if _clk:
+            ages = {}
+            for e in hit:
+              ages.setdefault((e["priority"], e["cookie"]), []).append(_clk[0].now - e["created"])
+            for e in m["body"]:
+              if e["duration_nsec"] >= 1000000000:
+                return "duration_nsec %d is a second or more" % e["duration_nsec"]
+              d_ = e["duration_sec"] + e["duration_nsec"] * 1e-9
+              if not any(abs(d_ - a) < 1e-3 for a in ages.get((e["priority"], e["cookie"]), [])):
+                return "duration %.3f s of an entry installed %r s ago" % (
+                  d_, [round(a, 3) for a in ages.get((e["priority"], e["cookie"]), [])])
         return ("reply", "stats_reply", chk)
       def chk2 (m):
         if m["type"] != 2: return "stats type"
@@ -479,8 +492,13 @@ def run_sequence (case, rep):
   per_request_out = []
   nt = False
   ok = True
+  ticking = rng.random() < 0.3 and bool(_clk)
   for i, req in enumerate(reqs):
     raw = encode(req)
+    if ticking and rng.random() < 0.3:
+      # time passes between two requests (entries age)
+      _clk[0].now += rng.choice([0.25, 1.5, 2.5, 4.5, 7.0])
+      rep.count("requests_sent_some_time_after_the_one_before")
     rep.count("requests")
     if req["name"] == "stats_request": rep.count("stats_requests")
     try:
@@ -599,6 +617,9 @@ def run_sequence (case, rep):
       if m["name"] not in (exp[1], "error"):
         fire("%s answered with %s" % (lab, describe(m)), ""); ok = False
   # --- differential: same sequence as one segmented batch on a fresh switch
+  # (not for the histories in which time passed between requests: the ages
+  #  reported would differ)
+  if ticking: return nt
   if ok:
     sw2 = new_switch(case.get("max_entries"))
     blob = b"".join(encode(r) for r in reqs)
@@ -702,9 +723,12 @@ def describe (m):
   return m["name"]
 
 
+_clk = []
+
 def do_case (case, rep):
   clock = simnet.VClock(5000.5)
   clock.install()       # durations in stats replies must not depend on wall time
+  _clk[:] = [clock]
   try:
     nt = run_sequence(case, rep)
   except Exception:
